@@ -283,6 +283,8 @@ pub struct CoopRun {
     pub fault_event: u64,
     pub fault_tid: u32,
     pub unstable_finalization: bool,
+    /// a cycle was finalized although some head had not converged in its last iteration
+    pub early_final: Vec<Violation>,
     pub proto_viol: Vec<Violation>,
     /// threads (harness tid) that waited inside salsa's dependency graph at least once
     pub blocked_tids: BTreeSet<u32>,
@@ -502,6 +504,7 @@ pub fn run_parallel(case: &CoopCase, world: Arc<Mutex<World>>, fault_at: Option<
     fault::disarm();
     // listed finding cyc-kf1: was a cycle finalized while a head's dependency list still changed?
     let mut unstable_finalization = false;
+    let mut early_final: Vec<Violation> = vec![];
     let mut proto_viol = vec![];
     let mut blocked_tids: BTreeSet<u32> = BTreeSet::new();
     let mut proto = crate::props::c19::ProtoCheck::default();
@@ -520,10 +523,18 @@ pub fn run_parallel(case: &CoopCase, world: Arc<Mutex<World>>, fault_at: Option<
                 }
             }
         }
+        let mut conv: std::collections::BTreeMap<(u32, u64), (bool, bool)> = Default::default();
         for h in evs {
-            if let T::CycleHead { ingredient, key, finalized, deps_stable, .. } = h {
+            if let T::CycleHead { ingredient, key, finalized, deps_stable, value_converged, metadata_converged, heads, .. } = h {
                 last.insert((ingredient, key), deps_stable);
+                conv.insert((ingredient, key), (value_converged, metadata_converged));
                 if finalized {
+                    if let Some((k, (vc, mc))) = conv.iter().find(|(k, (vc, mc))| heads.contains(k) && (!*vc || !*mc)) {
+                        early_final.push(viol("cycle-finalized-before-convergence", format!("cycle finalized although head {k:?} had value_converged={vc} metadata_converged={mc} in its last iteration")));
+                    }
+                    for k in &heads {
+                        conv.remove(k);
+                    }
                     if last.values().any(|s| !*s) {
                         unstable_finalization = true;
                     }
@@ -570,6 +581,7 @@ pub fn run_parallel(case: &CoopCase, world: Arc<Mutex<World>>, fault_at: Option<
         fault_event,
         fault_tid: 0,
         unstable_finalization,
+        early_final,
         proto_viol,
         blocked_tids,
         proto_blocks: proto.blocks,
@@ -663,6 +675,7 @@ pub fn run_coop_case(which: &str, case: &CoopCase) -> SeqOutcome {
         outc.violations = v;
         return outc;
     }
+    v.extend(run.early_final.iter().cloned());
     let mut model = model0.clone();
     if let Mode::Writer { .. } = case.mode {
         if let Some(WOp::Write(Step::Set { slot, field, val, .. })) = case.plans[0].first() {
